@@ -171,7 +171,7 @@ func run(c *Ctx, s *script) {
 	if field(ans, "alive") != "1" {
 		c.Violate(Violation{Signature: sig + "/crash/" + s.class,
 			What:  "the server process died while serving this script (a panic in one connection goroutine is process-wide)",
-			Input: req, Observed: Trunc(LastDeath(ans), 1500), Required: "the process survives; at worst the offending connection is closed"})
+			Input: req, Observed: Trunc(C10LastDeath(ans), 1500), Required: "the process survives; at worst the offending connection is closed"})
 		return
 	}
 	if got, want := field(ans, "g"), strings.Join(s.expG, "/"); got != want && len(s.expG) > 0 {
@@ -644,7 +644,7 @@ func c10(c *Ctx) {
 	c.Rule = "one case = one script against a real server process: good session answered, hostile connection(s), good session answered again with the next platform serial, new connection accepted. 808: every registered id x adversarial bodies (empty, 1 byte, ff.., 7e.., random short/long, 1023 zeros, every historical panic witness) x both header versions; sub-package numbers 0 / total+1 / totals that change, 65535 slots, in one read and in separate reads; FIN and RST at every 5th (thorough: every) byte of a register/auth/heartbeat/location/2-packet-multimedia conversation; the good session's own phone on a second connection; random and mutated streams with random cuts. Attachment, 5 dialects: connect-and-close, 0x1210 then 0x1212, chunks of unknown files / huge offsets and lengths / header only, adversarial 0x1210 item lists and names (../up, empty), marker inside ids, garbage, each ended by a probe, FIN or RST; FIN/RST at every 13th (thorough: every) byte of an upload; mutated uploads. Non-trivial = the script has a hostile connection"
 	ContainDir = filepath.Join(c.Out, "contain")
 	os.MkdirAll(ContainDir, 0o755)
-	defer StopChildren()
+	defer C10StopChildren()
 	b808, batt := 40*time.Second, 30*time.Second
 	if !c.Quick() {
 		b808, batt = 20*time.Minute, 15*time.Minute
